@@ -352,16 +352,15 @@ def _clone(w, st, fr, path, targs, args, dty):
 
 # --------------------------------------------------------------- Range<int> iteration
 
-@builtin("core::iter::range::<impl core::iter::Iterator for core::ops::Range<A>>::next",
-         "core::iter::Iterator::next")
+@builtin("core::iter::range::<impl core::iter::Iterator for core::ops::Range<A>>::next")
 def _range_next(w, st, fr, path, targs, args, dty):
     r = args[0]
     if not isinstance(r, Ref):
         return NOT_HANDLED
     v = w.load(st, r.obj, r.proj)
-    if isinstance(v, SymObj) and v.ty[0] == "adt" and v.ty[1].endswith("ops::Range"):
+    if isinstance(v, SymObj) and v.ty[0] == "adt" and v.ty[1].endswith("::Range"):
         v = w.materialise(v, st)
-    if not (isinstance(v, Agg) and v.kind[0] == "adt" and v.kind[1].endswith("ops::Range")):
+    if not (isinstance(v, Agg) and v.kind[0] == "adt" and v.kind[1].endswith("::Range")):
         return NOT_HANDLED
     start, end = v.fields
     if not (isinstance(start, T) and isinstance(end, T)):
@@ -385,11 +384,10 @@ def _range_next(w, st, fr, path, targs, args, dty):
     return ForkValues([(c, 1, take), (c, 0, NONE)])
 
 
-@builtin("core::iter::traits::collect::IntoIterator::into_iter", "<I as core::iter::IntoIterator>::into_iter",
-         "<I as core::iter::traits::collect::IntoIterator>::into_iter")
+@builtin("core::iter::IntoIterator::into_iter", "<I as core::iter::IntoIterator>::into_iter")
 def _into_iter(w, st, fr, path, targs, args, dty):
     a = args[0]
-    if isinstance(a, Agg) and a.kind[0] == "adt" and a.kind[1].endswith("ops::Range"):
+    if isinstance(a, Agg) and a.kind[0] == "adt" and a.kind[1].endswith("::Range"):
         return a
     return NOT_HANDLED
 
@@ -406,3 +404,76 @@ def _slice_len(w, st, fr, path, targs, args, dty):
         if isinstance(tgt, SymArr):
             return tgt.length
     return NOT_HANDLED
+
+
+# --------------------------------------------------------------- slices / arrays / Vec as arrays
+
+def _arr_len(w, st, r):
+    if r.meta is not None:
+        return r.meta
+    tgt = w.load(st, r.obj, r.proj)
+    if isinstance(tgt, SymObj):
+        tgt = w.materialise(tgt, st)
+        w.store_to(st, r.obj, r.proj, tgt)
+    if isinstance(tgt, Agg) and tgt.kind == ("array",):
+        return K(len(tgt.fields), 64)
+    if isinstance(tgt, SymArr):
+        return tgt.length
+    return None
+
+
+@builtin("core::slice::<impl [T]>::iter", "core::slice::iter::<impl core::iter::IntoIterator for &'a [T]>::into_iter",
+         "core::array::<impl core::iter::IntoIterator for &'a [T; N]>::into_iter")
+def _slice_iter(w, st, fr, path, targs, args, dty):
+    r = args[0]
+    if not isinstance(r, Ref):
+        return NOT_HANDLED
+    n = _arr_len(w, st, r)
+    if n is None:
+        return NOT_HANDLED
+    return Agg(("sliceiter",), 0, [r, K(0, 64), n])
+
+
+@builtin("<core::slice::Iter<'a, T> as core::iter::Iterator>::next")
+def _slice_iter_next(w, st, fr, path, targs, args, dty):
+    r = args[0]
+    if not isinstance(r, Ref):
+        return NOT_HANDLED
+    it = w.load(st, r.obj, r.proj)
+    if not (isinstance(it, Agg) and it.kind == ("sliceiter",)):
+        return NOT_HANDLED
+    base, i, n = it.fields
+    c = w.simplify(st, tm.cmp("ult", i, n))
+
+    def take(s2):
+        w.store_to(s2, r.obj, r.proj, Agg(("sliceiter",), 0, [base, tm.binop("add", i, K(1, 64)), n]))
+        proj = base.proj + ((("i", i.val),) if i.is_const() else (("ix", i),))
+        return some(Ref(base.obj, proj, False))
+    if c.is_const():
+        return take(st) if c.val else NONE
+    return ForkValues([(c, 1, take), (c, 0, NONE)])
+
+
+@builtin("<core::slice::Iter<'a, T> as core::iter::Iterator>::any")
+def _slice_iter_any(w, st, fr, path, targs, args, dty):
+    r = args[0]
+    clo = args[1]
+    it = w.load(st, r.obj, r.proj) if isinstance(r, Ref) else r
+    if not (isinstance(it, Agg) and it.kind == ("sliceiter",)) or not isinstance(clo, Agg) or clo.kind[0] != "closure":
+        return NOT_HANDLED
+    base, i, n = it.fields
+    if not (i.is_const() and n.is_const()) or n.val > 64:
+        return NOT_HANDLED
+    cfn = w.prog.fns.get(clo.kind[1])
+    if cfn is None:
+        return NOT_HANDLED
+    acc = tm.FALSE
+    oid = ("tmp", "anyclo", st.nfid)
+    st.store[oid] = clo
+    for k in range(i.val, n.val):
+        elem = Ref(base.obj, base.proj + (("i", k),), False)
+        ret, _ = w.call_pure(st, cfn, dict(fr.genv), [Ref(oid, (), True), elem])
+        if not isinstance(ret, T):
+            return NOT_HANDLED
+        acc = tm.binop("or", acc, ret)
+    return acc
